@@ -85,3 +85,25 @@ def check(ctx):
     ini = P.own_method("__init__")
     ctx.check("splits.hostname or hostname" in src(ini), "D7-relative", ini, "Patron.__init__ defaults splits.hostname (sibling idiom)", "")
     defect_scope(ctx, "D-scope", [rd], max_depth=1, floor=1, label="scope: Patron.redirect")
+    # every decision taken from the redirect's scheme/host/port (secured, default port, downgrade guard, connector) reads them
+    # only after the relative-Location defaulting has been decided
+    ctx.rule("T3-defaulted", "in Patron.redirect scheme/hostname/port are read only after the `Location has no hostname` defaulting")
+    dt = V.ptests("not hostname")
+    V.need(dt, "`if not hostname` defaulting test in Patron.redirect")
+    tnode = dt[0][0]
+    inside = {id(x) for x in ast.walk(tnode.ast)}       # the defaulting `if` itself (test + arms)
+    late = True
+    offenders = []
+    for n in V.cfg.nodes:
+        if n.id == tnode.id or id(n.ast) in inside:
+            continue
+        reads = {x.id for x in V.cfg.walk_node(n) if isinstance(x, ast.Name) and isinstance(x.ctx, ast.Load) and x.id in ("scheme", "hostname", "port")}
+        # plain initialisation from urlsplit (scheme = splits.scheme) reads none of them
+        if reads and not V.dominated([n], [tnode]):
+            late = False
+            offenders.append(src(n.ast)[:60] if hasattr(n.ast, "lineno") else str(n))
+    ctx.check(late, "T3-defaulted", rd, "redirect: scheme/hostname/port are consumed only after the relative-Location defaulting %s" % (offenders[:2] or ""),
+              "a value derived from the Location's own (empty) scheme before it inherits the request's scheme treats an https request "
+              "redirected to a relative Location as plain http: the downgrade guard raises and the redirect is never followed")
+    from .c30 import plus_decoders
+    plus_decoders(ctx, "T3-chain")
